@@ -253,7 +253,7 @@ func init() {
 				// m if side == blas.Left and lwork >= n if side == blas.Right"); the code
 				// (and reference DORMLQ) want n for Left, m for Right. A third of the
 				// minimal-lwork cases follow the doc comment, under their own key.
-				if p.name == "Dormlq" && e.c.Fault == "" && !e.discover && !e.query() && e.c.LW == 0 && e.c.Fl[3]%3 == 0 && max(1, nq) < mn {
+				if p.name == "Dormlq" && docSays("Dormlq", "lwork >= m if side == blas.Left") && e.c.Fault == "" && !e.discover && !e.query() && e.c.LW == 0 && e.c.Fl[3]%3 == 0 && max(1, nq) < mn {
 					lw = max(1, nq)
 					e.tag = "/documented-min-lwork"
 				}
@@ -297,7 +297,7 @@ func init() {
 		// the code (and reference DLARF) want len(work) >= n for Left, m for Right;
 		// the doc comment has them swapped. A third of the exactly-minimal cases
 		// follow the doc comment, under their own key.
-		if e.c.Fault == "" && !e.discover && e.c.X == 0 && e.c.Fl[3]%3 == 0 && lenV < lenW {
+		if docSays("Dlarf", "at least m if side == blas.Left") && e.c.Fault == "" && !e.discover && e.c.X == 0 && e.c.Fl[3]%3 == 0 && lenV < lenW {
 			lenW = lenV
 			e.tag = "/documented-work-length"
 		}
